@@ -6,6 +6,7 @@ import (
 	"reflect"
 	"testing"
 
+	modbus "github.com/aldas/go-modbus-client"
 	"pgregory.net/rapid"
 
 	"verif/internal/cat"
@@ -371,6 +372,131 @@ func TestPayloadAxes(t *testing.T) {
 				r.Unit, r.Addr, r.Tx = uint8(u), uint16(u*255), uint16(65535-u)
 				if !chkEnc.Eval(t, encCase{Framing: fr, Req: r}) {
 					return
+				}
+			}
+		}
+	}
+}
+
+// builderCase: a read request (FC1-4) obtained from the request builder - the other way the library constructs requests - for
+// fields that span exactly [Addr, Addr+Qty) on one server and unit. The frame a caller gets from the BuilderRequest (what Client.Do
+// serialises when it is handed the BuilderRequest, as in the README) must be the specification's ADU for that unit, address and quantity.
+type builderCase struct {
+	Framing spec.Framing `json:"framing"`
+	FC      uint8        `json:"fc"`
+	Unit    uint8        `json:"unit"`
+	Addr    uint16       `json:"addr"`
+	Qty     uint16       `json:"qty"`
+}
+
+func runBuilder(c builderCase) harness.Result {
+	labels := []string{fmt.Sprintf("fc%d", c.FC), c.Framing.String(), "via-builder"}
+	typ := modbus.FieldTypeUint16
+	if c.FC <= 2 {
+		typ = modbus.FieldTypeCoil
+	}
+	last := uint16(int(c.Addr) + int(c.Qty) - 1)
+	b := modbus.NewRequestBuilder("", 0)
+	b.AddAll([]modbus.Field{
+		{Name: "first", ServerAddress: "dev:502", UnitID: c.Unit, Address: c.Addr, Type: typ},
+		{Name: "last", ServerAddress: "dev:502", UnitID: c.Unit, Address: last, Type: typ},
+	})
+	var reqs []modbus.BuilderRequest
+	var err error
+	switch {
+	case c.FC == 1 && c.Framing == spec.TCP:
+		reqs, err = b.ReadCoilsTCP()
+	case c.FC == 1:
+		reqs, err = b.ReadCoilsRTU()
+	case c.FC == 2 && c.Framing == spec.TCP:
+		reqs, err = b.ReadDiscreteInputsTCP()
+	case c.FC == 2:
+		reqs, err = b.ReadDiscreteInputsRTU()
+	case c.FC == 3 && c.Framing == spec.TCP:
+		reqs, err = b.ReadHoldingRegistersTCP()
+	case c.FC == 3:
+		reqs, err = b.ReadHoldingRegistersRTU()
+	case c.FC == 4 && c.Framing == spec.TCP:
+		reqs, err = b.ReadInputRegistersTCP()
+	default:
+		reqs, err = b.ReadInputRegistersRTU()
+	}
+	if err != nil || len(reqs) != 1 {
+		// how fields are batched is another property's subject; only single requests are compared here
+		return harness.Result{Labels: append(labels, "not-one-request")}
+	}
+	got := reqs[0].Bytes()
+	e := spec.Req{FC: c.FC, Unit: c.Unit, Addr: c.Addr, Qty: c.Qty}
+	if c.Framing == spec.TCP && len(got) >= 2 {
+		e.Tx = uint16(got[0])<<8 | uint16(got[1]) // the builder picks the transaction id
+	}
+	if lerr := spec.LegalRequest(e); lerr != nil {
+		return harness.Fail("the builder produced a request for %d items at %d, illegal under the specification: %v", c.Qty, c.Addr, lerr)
+	}
+	want := spec.EncodeRequest(c.Framing, e)
+	if !bytes.Equal(got, want) {
+		return harness.Fail("request made by the builder for unit %d, %d items at address %d serialises to\n  %x\nthe specification prescribes\n  %x", c.Unit, c.Qty, c.Addr, got, want)
+	}
+	if inner := reqs[0].Request.Bytes(); !bytes.Equal(inner, want) {
+		return harness.Fail("the packet request inside the builder's request serialises to %x, the builder's request to %x", inner, want)
+	}
+	for i := range got {
+		got[i] ^= 0xEE // the returned slice is the caller's
+	}
+	if again := reqs[0].Bytes(); !bytes.Equal(again, want) {
+		return harness.Fail("serialising the builder's request a second time gives %x, the first time %x", again, want)
+	}
+	return harness.Result{NonTrivial: true, Labels: labels}
+}
+
+func genBuilder(t *rapid.T) builderCase {
+	c := builderCase{Framing: gen.Framing(t), FC: uint8(rapid.IntRange(1, 4).Draw(t, "fc")), Unit: rapid.Uint8().Draw(t, "unit")}
+	limit := 125
+	if c.FC <= 2 {
+		limit = 2000
+	}
+	c.Qty = uint16(rapid.IntRange(1, limit).Draw(t, "qty"))
+	if rapid.Bool().Draw(t, "small") {
+		c.Qty = uint16(rapid.IntRange(1, 12).Draw(t, "qty_small"))
+	}
+	c.Addr = gen.U16(t, "addr", gen.HotAddr)
+	if int(c.Addr)+int(c.Qty) > 65536 {
+		c.Addr = uint16(65536 - int(c.Qty))
+	}
+	return c
+}
+
+var chkBuilder = harness.Define("builder-request-frames", genBuilder, runBuilder)
+
+func TestBuilderRandom(t *testing.T) { chkBuilder.Rapid(t, harness.Pick(3000, 200000)) }
+
+// TestBuilderFrames: every function and framing x hot unit ids x hot start addresses x every quantity up to the limits.
+func TestBuilderFrames(t *testing.T) {
+	idx := 0
+	for fc := uint8(1); fc <= 4; fc++ {
+		limit := 125
+		if fc <= 2 {
+			limit = 2000
+		}
+		for _, fr := range []spec.Framing{spec.TCP, spec.RTU} {
+			for _, unit := range []uint8{0, 1, 6, 255} {
+				for _, addr := range []int{0, 1, 2, 255, 256, 0x0600, -1} {
+					idx++
+					if !harness.Mine(idx) {
+						continue
+					}
+					for q := 1; q <= limit; q++ {
+						if fc <= 2 && q > 140 && q%97 != 0 && q < limit-2 {
+							continue
+						}
+						a := addr
+						if a < 0 {
+							a = 65536 - q
+						}
+						if !chkBuilder.EvalFast(t, builderCase{Framing: fr, FC: fc, Unit: unit, Addr: uint16(a), Qty: uint16(q)}) {
+							return
+						}
+					}
 				}
 			}
 		}
